@@ -95,3 +95,15 @@ claim("C14",
       "Not covered (explicitly): any change to the level walk in topicFilter.Match or to the checks in newTopicFilter.",
       "CFG dominance + element/index value identity + who-constructs over go/types",
       "DESIGN.md section 4, C14")
+
+claim("C04",
+      "The serve loop is the only reader and strictly sequential, so the behaviour for every packet sequence is the composition of per-packet-kind effects plus the semantics of one Go map. Decided on every path of each arm (QoS-specialised for PUBLISH): QoS0 — the parsed message is handed over exactly once if a handler is registered, nothing written or stored; QoS1 — hand-over once, then exactly one PUBACK with the parsed id, never before the hand-over; QoS2 — exactly one PUBREC with the parsed id and the message held under that id, no hand-over; PUBREL — a hit hands over exactly the held message once, deletes the entry within the arm (a deferred delete does not count) and writes one PUBCOMP with the PUBREL's id, a miss hands over nothing; the sub-arm is selected by this packet's parsed QoS; the hold buffer is a non-escaping local created before the loop, serve runs only in Connect's goroutine and is the only reader of the transport; the handler is read per message; length guards of the PUBLISH/PUBREL parsers are exact (a minimal well-formed packet is not rejected).",
+      "Not covered: payload/topic content (C05); QoS 2 state across connections (the hold buffer is per connection); an unknown PUBREL is not answered (the statement does not require it).",
+      "per-arm effect-sequence analysis over the SSA CFG (must/never-follow, exactly-once, value identity of ids and messages) + guard-tightness from the bounds prover",
+      "DESIGN.md section 4, C04")
+
+claim("C06",
+      "'Never panics, never over-allocates' is a property of every operation on peer-controlled data, which the checker enumerates over the read side (everything reachable from serve plus Subscribe's use of the SUBACK): every index/slice/string-index obligation is discharged by a small sound linear prover from dominating length facts, preconditions lifted to and proved at every call site, and callee result summaries (narrow unsigned arithmetic is opaque, so wrap-around is not assumed away); the body allocation is shown to be in [0, 2^28-1] by a bit-width domain with stride-aware loop counters, for 64- and (thorough) 32-bit int; no other panic source exists on the read side outside a reasoned table; every readPacket/Parse error ends serve with that error, unknown types, wrong reserved flags, short bodies, QoS 3 and U+0000 are rejected with the documented sentinels, serve never returns nil; the reader goroutine records the error before reporting Closed and closing Done(); length guards are exact.",
+      "Not covered: panics inside the user's handler or Transport; memory held by many in-flight packets; the slice in (*BaseClient).write depends on the io.Writer contract, not on peer bytes (table exception).",
+      "guarded-index analysis: linear-form prover over dominating branch facts with interprocedural precondition lifting and summaries; bit-width abstract domain; error-discipline and sibling cross-checks",
+      "DESIGN.md section 4, C06")
